@@ -1,35 +1,24 @@
 (* C13 -- errors are located inside the source and point at the offending text.
    Only statements here; proofs are in Proofs/SpanProofs.v; models in Model/Span.v (checked against the
-   implementation by vplib/props/c13.py); Gen/GenSites.v is regenerated from /repo on every run. *)
+   implementation by vplib/props/c13.py); Gen/GenC13.v is regenerated from /repo on every run. *)
 From Coq Require Import List NArith Bool Arith.
-From PV Require Import Lib.ListX Model.Checked Model.Span Model.SitesBaseline Proofs.SpanProofs Gen.GenSites.
+From PV Require Import Lib.ListX Model.Checked Model.Span Model.SpanBaseline Proofs.SpanProofs Gen.GenC13.
 Import ListNotations.
 
-(* ---- the text of the functions Model/Span.v restates is the recorded one (Tie A) ---- *)
-Definition c13_fns : list str :=
-  [ [99;111;109;112;111;115;101;100] (* composed *);
-    [99;111;109;112;111;115;101;95;108;111;99;97;116;105;111;110] (* compose_location *);
-    [115;111;117;114;99;101;95;116;114;101;101;95;110;101;119] (* source_tree_new *);
-    [99;111;110;118;101;114;116;95;108;101;120;101;114;95;101;114;114;111;114] (* convert_lexer_error *);
-    [112;97;114;115;101;95;108;114;95;116;111;95;112;114] (* parse_lr_to_pr *);
-    [115;112;97;110;95;97;100;100] (* span_add *);
-    [105;110;116;101;114;112;95;99;97;108;108] (* interp_call *);
-    [114;101;97;115;111;110;95;100;105;115;112;108;97;121] (* reason_display *);
-    [105;110;116;101;114;112;95;114;101;98;97;115;101] (* interp_rebase *) ]%N.
-Definition pick (names : list str) (tbl : list (str * str)) : list (str * str) :=
-  filter (fun e => existsb (leqb (fst e)) names) tbl.
-
-Theorem c13_modelled_text_unchanged :
-  same_text (pick c13_fns GenSites.modelled) (pick c13_fns modelled_expected) = true.
+(* ---- the text of the functions Model/Span.v restates is the recorded one (Tie A): composed, compose_location,
+   From<Error> for ErrorMessage, SourceTree::single/new/From<S>, prql_to_tokens, lex_source_recovery, parse_source,
+   load_std_lib, convert_lexer_error, parse_lr_to_pr, Add<usize> for Span, interpolation(), Display for Reason,
+   WithErrorInfo for Error, Resolver::fold_function, the rebasing statement of interpolation::parse ---- *)
+Theorem c13_modelled_text_unchanged : same_text GenC13.modelled modelled_expected = true.
 Proof. vm_compute. reflexivity. Qed.
 Print Assumptions c13_modelled_text_unchanged.
 
-Theorem c13_reason_variants_modelled : same_list GenSites.reason_variants reason_variants_expected = true.
+Theorem c13_reason_variants_modelled : same_list GenC13.reason_variants reason_variants_expected = true.
 Proof. vm_compute. reflexivity. Qed.
 Print Assumptions c13_reason_variants_modelled.
 
 (* every literal passed to Error::new_simple("..") is non-empty *)
-Theorem c13_simple_literals_nonempty : nonempty_all GenSites.simple_literals = true.
+Theorem c13_simple_literals_nonempty : nonempty_all GenC13.simple_literals = true.
 Proof. vm_compute. reflexivity. Qed.
 Print Assumptions c13_simple_literals_nonempty.
 
@@ -65,11 +54,67 @@ Theorem c13_location_is_position : forall s sp,
 Proof. exact location_is_position_lemma. Qed.
 Print Assumptions c13_location_is_position.
 
-(* the assert! in `composed` fires exactly for spans past the end of the (character) source *)
+(* `composed` panics exactly for spans past the end of the (character) source -- assert!(e.location.is_some()) --
+   and for reversed spans (ariadne's Label::new asserts start <= end) *)
 Theorem c13_composed_panics_iff : forall s sp,
-  composed_one [(sp_src sp, s)] (Some sp) = Panic <-> (length s < sp_start sp \/ length s < sp_end sp).
+  composed_one [(sp_src sp, s)] (Some sp) = Panic <->
+  (length s < sp_start sp \/ length s < sp_end sp \/ sp_end sp < sp_start sp).
 Proof. exact composed_one_panics_iff. Qed.
 Print Assumptions c13_composed_panics_iff.
+
+(* a span that `composed` leaves on a message names a file of the tree, has start <= end <= the character length of
+   that file and comes with the position of its two ends (full strength since 7cb9d46: before, a span of std.prql -- source 0 --
+   stayed on the message without naming any file of the caller's tree; finding C13-N2, fixed) *)
+Theorem c13_reported_span_names_file : forall tree sp sp' loc,
+  composed_one tree sp = Ret (Some sp', loc) ->
+  sp = Some sp' /\
+  exists s, find (fun p => Nat.eqb (fst p) (sp_src sp')) tree = Some (sp_src sp', s) /\
+    sp_start sp' <= sp_end sp' /\ sp_end sp' <= length s /\
+    loc = Some (locate (lines s) (sp_start sp') 0, locate (lines s) (sp_end sp') 0).
+Proof. exact composed_one_reported. Qed.
+Print Assumptions c13_reported_span_names_file.
+
+Theorem c13_foreign_span_removed : forall tree sp,
+  find (fun p => Nat.eqb (fst p) (sp_src sp)) tree = None -> composed_one tree (Some sp) = Ret (None, None).
+Proof. exact composed_one_foreign. Qed.
+Print Assumptions c13_foreign_span_removed.
+
+Theorem c13_location_has_span : forall tree sp loc, composed_one tree sp = Ret (None, loc) -> loc = None.
+Proof. exact composed_one_location_has_span. Qed.
+Print Assumptions c13_location_has_span.
+
+(* ---- lexer errors as the caller sees them (compile: parse_source + composed; `prqlc lex`: prql_to_tokens, which
+   composes since d650e1d): never the assert panic, character span of the file, located at its two ends ---- *)
+Theorem c13_lexer_error_reported_located : forall tree s bs be sid,
+  find (fun p => Nat.eqb (fst p) sid) tree = Some (sid, s) ->
+  boundary s bs -> boundary s be -> bs <= be ->
+  exists cs ce,
+    lexer_error_reported tree s bs be sid =
+      Ret ((Some (Span cs ce sid), Some (locate (lines s) cs 0, locate (lines s) ce 0)), firstn (ce - cs) (skipn cs s)) /\
+    cs <= ce /\ ce <= length s /\ byte_of_char s cs = bs /\ byte_of_char s ce = be.
+Proof. exact lexer_error_reported_located. Qed.
+Print Assumptions c13_lexer_error_reported_located.
+
+Theorem c13_prql_to_tokens_error_located : forall s bs be,
+  boundary s bs -> boundary s be -> bs <= be ->
+  exists cs ce,
+    prql_to_tokens_error s bs be =
+      Ret ((Some (Span cs ce 1), Some (locate (lines s) cs 0, locate (lines s) ce 0)), firstn (ce - cs) (skipn cs s)) /\
+    cs <= ce /\ ce <= length s /\ byte_of_char s cs = bs /\ byte_of_char s ce = be.
+Proof. exact prql_to_tokens_error_located. Qed.
+Print Assumptions c13_prql_to_tokens_error_located.
+
+(* ---- Resolver::fold_function (7cb9d46): when the call is in the user's source, the error it returns never points
+   into std.prql; an error that does not point into std.prql keeps its span ---- *)
+Theorem c13_std_error_at_call_site : forall err call cs sp,
+  call = Some cs -> sp_src cs <> std_source_id -> respan_std err call = Some sp -> sp_src sp <> std_source_id.
+Proof. exact respan_std_user. Qed.
+Print Assumptions c13_std_error_at_call_site.
+
+Theorem c13_user_error_span_kept : forall err call,
+  (forall e, err = Some e -> sp_src e <> std_source_id) -> respan_std err call = err.
+Proof. exact respan_std_keeps. Qed.
+Print Assumptions c13_user_error_span_kept.
 
 (* multi-file: source id i+1 names the i-th file handed to SourceTree::new *)
 Theorem c13_source_id_names_file : forall srcs i s,
@@ -148,6 +193,18 @@ Proof. vm_compute. reflexivity. Qed.
 Example c13_ex_lines : lines [97;13;10;98;10;10;99]%N = [3; 2; 1; 1].
 Proof. vm_compute. reflexivity. Qed.
 Example c13_ex_loc : compose_location [97;13;10;98;10;10;99]%N (Span 4 7 1) = Some ((1, 1), (3, 1)).
+Proof. vm_compute. reflexivity. Qed.
+Example c13_ex_composed : composed_one [(1, [97;10;98]%N)] (Some (Span 2 3 1)) = Ret (Some (Span 2 3 1), Some ((1, 0), (1, 1))).
+Proof. vm_compute. reflexivity. Qed.
+Example c13_ex_foreign : composed_one [(1, [97;10;98]%N)] (Some (Span 2 3 0)) = Ret (None, None).
+Proof. vm_compute. reflexivity. Qed.
+Example c13_ex_tokens_error : prql_to_tokens_error [233;10;94]%N 3 4 = Ret ((Some (Span 2 3 1), Some ((1, 0), (1, 1))), [94]%N).
+Proof. vm_compute. reflexivity. Qed.
+Example c13_ex_respan : respan_std (Some (Span 400 410 0)) (Some (Span 9 21 1)) = Some (Span 9 21 1).
+Proof. vm_compute. reflexivity. Qed.
+Example c13_ex_respan_keeps : respan_std (Some (Span 14 15 1)) (Some (Span 9 21 1)) = Some (Span 14 15 1).
+Proof. vm_compute. reflexivity. Qed.
+Example c13_ex_respan_no_call : respan_std (Some (Span 400 410 0)) None = Some (Span 400 410 0).
 Proof. vm_compute. reflexivity. Qed.
 Example c13_ex_partial_hyp : ascii_before_byte [102;114;111;109;32;233]%N 5 = true.
 Proof. vm_compute. reflexivity. Qed.
